@@ -72,3 +72,9 @@ func vfConnectedClientSec(policy string, mode ua.MessageSecurityMode, respond fu
 func vfRH() *ua.ResponseHeader {
 	return &ua.ResponseHeader{ServiceDiagnostics: &ua.DiagnosticInfo{}, AdditionalHeader: ua.NewExtensionObject(nil)}
 }
+
+// exported for harnesses of other packages (monitor): a connected client against a scripted
+// server, and the publish loop that Connect would have started
+func VfClient(respond func(req ua.Request) ua.Response) *Client { return vfConnectedClient(respond) }
+func VfStartPublishLoop(ctx context.Context, c *Client)         { go c.monitorSubscriptions(ctx) }
+func VfResponseHeader() *ua.ResponseHeader                      { return vfRH() }
